@@ -1,4 +1,5 @@
 //! Shared helpers for the per-property harness binaries (src/bin/cXX.rs).
 #[path = "lib_util.rs"]
 pub mod util;
+pub mod exec;
 pub use util::*;
